@@ -8,6 +8,8 @@
 //! (`S::a` / `S::id` translate), so a different instantiate numbering in cw-multi-test changes nothing:
 //!   1000 base-factory; 1001+2i base minter i, 1002+2i source collection i; 1009 token-merge-factory; 1010 the minter; 1011 its collection.
 //! Accounts: admin/creator = 10, users 20..24, gov 90.
+//! Source collections come in every kind that can transfer (header `kinds=<k,k,k,k>`, harness-only — the model does not care):
+//!   0 sg721-base, 1 sg721-updatable, 2 sg721-metadata-onchain, 3 sg721-base MIGRATED to sg721-updatable after creation.
 //!
 //! Round 3:
 //! * the monitors judge the property on a harness-side GHOST (`Ghost`): what the harness configured (requirement vector, clock),
@@ -260,6 +262,10 @@ struct S {
     exec_root: Value,
     inner_root: Value,
     storage_unreadable: bool,
+    /// kind of each source collection (0 base, 1 updatable, 2 metadata-onchain, 3 base migrated to updatable)
+    kinds: Vec<u64>,
+    /// tokens created so far in each source collection (ids for the metadata-onchain path)
+    given: BTreeMap<u64, u64>,
 }
 
 fn b64(v: &Value) -> Value {
@@ -298,6 +304,8 @@ impl S {
             exec_root: exec_schema(),
             inner_root: inner_schema(),
             storage_unreadable: false,
+            kinds: vec![],
+            given: BTreeMap::new(),
         }
     }
     /// logical id → real address string
@@ -581,10 +589,22 @@ impl Sut for S {
         self.base_fee = pb.min_mint_price.1 * pb.mint_fee_bps as u128 / 10_000;
         let fb = w.new_factory(FactoryKind::Base, &pb).expect("base factory");
         self.name(BASE_FACTORY, &fb);
+        let kinds: Vec<u64> = kv_list(header, "kinds").map(|v| v.iter().map(|x| *x as u64).collect()).unwrap_or_else(|| vec![0; COLLS.len()]);
         for i in 0..COLLS.len() {
+            let kind = kinds.get(i).copied().unwrap_or(0);
             let mut ab = w.default_create(MinterKind::Base, &pb);
             ab.creator = ADMIN;
-            let (mb, cb) = w.create_minter(&fb, MinterKind::Base, &ab).expect("base minter");
+            ab.sg721_code_id = w.coll_code(match kind {
+                1 => CollKind::Updatable,
+                2 => CollKind::MetadataOnchain,
+                _ => CollKind::Base,
+            });
+            let (mb, cb) = w.create_minter(&fb, MinterKind::Base, &ab).unwrap_or_else(|e| panic!("base minter with collection kind {kind}: {e}"));
+            if kind == 3 {
+                // an sg721-base collection upgraded in place to sg721-updatable (wasm admin = the creator)
+                let code = w.coll_code(CollKind::Updatable);
+                w.migrate(&addr(ADMIN), &cb, code, &json!({})).unwrap_or_else(|e| panic!("migrate source collection base -> updatable: {e}"));
+            }
             self.name(BASE_MINTERS[i], &mb);
             self.name(COLLS[i], &cb);
         }
@@ -605,6 +625,8 @@ impl Sut for S {
         self.name(SELF, &m);
         self.name(TGT, &c);
         self.w = w;
+        self.kinds = kinds;
+        self.given.clear();
         self.n = n;
         self.users = USERS.iter().cloned().chain([ADMIN]).collect();
         self.g = Ghost { req: req.iter().map(|(c, k)| (*c as u64, *k as u32)).collect(), now, start, limit, left: n, ..Default::default() };
@@ -628,13 +650,25 @@ impl Sut for S {
                 let mut got: Option<u64> = None;
                 if let Some(i) = COLLS.iter().position(|x| *x == c) {
                     let bm = self.a(BASE_MINTERS[i]);
-                    let before = self.q_ids(c, Some(ADMIN));
-                    if self.w.exec(&addr(ADMIN), &bm, &json!({"mint": {"token_uri": "ipfs://source/token"}}), &[(0, self.base_fee)]).is_ok() {
-                        let after = self.q_ids(c, Some(ADMIN));
-                        let id = *after.difference(&before).next().expect("base mint: new token of the creator");
+                    if self.kinds.get(i) == Some(&2) {
+                        // base-minter cannot mint on sg721-metadata-onchain (`extension: null` does not parse as Metadata): the
+                        // collection's registered minter (the base-minter contract) "sends" the Mint with on-chain metadata itself
+                        let id = self.given.get(&c).copied().unwrap_or(0) + 1;
                         let (ca, toa) = (self.a(c), self.a(to));
-                        self.w.exec(&addr(ADMIN), &ca, &json!({"transfer_nft": {"recipient": toa, "token_id": id.to_string()}}), &[]).expect("distribute source token");
-                        got = Some(id);
+                        let m = json!({"mint": {"token_id": id.to_string(), "owner": toa, "token_uri": null, "extension": {"name": "source token"}}});
+                        if self.w.exec(&bm, &ca, &m, &[]).is_ok() {
+                            self.given.insert(c, id);
+                            got = Some(id);
+                        }
+                    } else {
+                        let before = self.q_ids(c, Some(ADMIN));
+                        if self.w.exec(&addr(ADMIN), &bm, &json!({"mint": {"token_uri": "ipfs://source/token"}}), &[(0, self.base_fee)]).is_ok() {
+                            let after = self.q_ids(c, Some(ADMIN));
+                            let id = *after.difference(&before).next().expect("base mint: new token of the creator");
+                            let (ca, toa) = (self.a(c), self.a(to));
+                            self.w.exec(&addr(ADMIN), &ca, &json!({"transfer_nft": {"recipient": toa, "token_id": id.to_string()}}), &[]).expect("distribute source token");
+                            got = Some(id);
+                        }
                     }
                 }
                 self.simple(line, "give", got.is_some());
@@ -819,6 +853,9 @@ impl Sut for S {
                 }
                 let to_minter = kind == "recv" || kv_u64(&line, "to") == Some(SELF);
                 if ok && to_minter {
+                    if kind == "send" && post_own == Some(SELF) {
+                        return bad("token-parked-without-credit", format!("SendNft of {:?} succeeded and the token is now owned by the minter: neither burned nor returned (ledger of {r}: {:?} -> {:?})", src, pre_d, post_d));
+                    }
                     if kind == "recv" && !self.is_coll(coll) {
                         return bad("direct-receive-accepted", "ReceiveNft called directly by an account was accepted".into());
                     }
@@ -972,11 +1009,22 @@ impl Sut for S {
 
 // ------------------------------------------------------------------------------------------------ generation
 
+/// source-collection kinds of a case: a function of its NAME only (so every seed visits the same scripted combinations)
+fn kinds_of(name: &str) -> [u64; 4] {
+    let mut h: u64 = 1469598103934665603;
+    for b in name.bytes() {
+        h = (h ^ b as u64).wrapping_mul(1099511628211);
+    }
+    let h = h >> 7;
+    [h % 4, (h / 4 + 1) % 4, (h / 16 + 2) % 4, (h / 64 + 3) % 4]
+}
+
 fn header(name: &str, req: &[(u64, u32)], start: u64, limit: u32, n: u32, price: u128) -> String {
     format!(
-        "case {name} self={SELF} tgt={TGT} admin={ADMIN} colls={} req={} start={start} limit={limit} n={n} maxlim={MAXLIM} price={price} now={NOW0}",
+        "case {name} self={SELF} tgt={TGT} admin={ADMIN} colls={} req={} start={start} limit={limit} n={n} maxlim={MAXLIM} price={price} now={NOW0} kinds={}",
         fmt_list(&COLLS),
-        fmt_pairs(req)
+        fmt_pairs(req),
+        fmt_list(&kinds_of(name))
     )
 }
 
@@ -996,6 +1044,8 @@ struct View {
     tgt: BTreeMap<u64, u64>,
     /// airdrop price currently in force (governance may change it)
     price: u128,
+    /// kind of each source collection (see the module doc)
+    kinds: [u64; 4],
 }
 
 impl View {
@@ -1168,6 +1218,11 @@ impl<'a> Gen<'a> {
         // coverage floor classes (see `main`)
         let clean = tag != "not-owner" && tag != "bad-msg" && tag != "wrong-contract" && tag != "no-token" && bad == 0 && to == SELF;
         if clean {
+            if ok {
+                let k = COLLS.iter().position(|x| *x == c).map(|i| self.v.kinds[i]).unwrap_or(9);
+                let kn = ["base", "updatable", "metadata-onchain", "base-migrated-to-updatable"].get(k as usize).copied().unwrap_or("?");
+                self.ses.mark(format!("floor:src-kind:{kn}:{}", if minted { "mint" } else { "credit" }));
+            }
             if minted {
                 self.ses.mark(format!("floor:mint:k{}", self.v.req.len()));
                 self.ses.mark(format!("floor:mint:{how}"));
@@ -1294,7 +1349,7 @@ fn all_vectors() -> Vec<Vec<(u64, u32)>> {
 fn begin<'a>(ses: &'a mut Session, sut: &'a mut S, name: &str, req: &[(u64, u32)], start: u64, limit: u32, n: u32, price: u128) -> Gen<'a> {
     ses.begin_case(sut, &header(name, req, start, limit, n, price));
     let rng = ses.rng.fork();
-    let v = View { left: n, now: NOW0, start, limit, req: req.to_vec(), price, ..Default::default() };
+    let v = View { left: n, now: NOW0, start, limit, req: req.to_vec(), price, kinds: kinds_of(name), ..Default::default() };
     let mut noise: Vec<String> = ["trading", "status", "migrate"].iter().map(|s| s.to_string()).collect();
     for u in unknown_of(&sut.exec_root, &KNOWN_EXEC) {
         noise.push(format!("x:{u}"));
@@ -2066,6 +2121,10 @@ fn main() {
     // ---- coverage floor: without these the run would be vacuous
     for k in 1..=3 {
         ses.require(format!("floor:mint:k{k}"));
+    }
+    for kn in ["base", "updatable", "metadata-onchain", "base-migrated-to-updatable"] {
+        ses.require(format!("floor:src-kind:{kn}:mint"));
+        ses.require(format!("floor:src-kind:{kn}:credit"));
     }
     for c in [
         "floor:mint:implicit", "floor:mint:explicit-other", "floor:mint:start+1", "floor:mint:after", "floor:credit:start+1", "floor:credit:after",
